@@ -99,6 +99,7 @@ type WorkerOut struct {
 	Samples     []*Trace          `json:"samples"`
 	RunDigests  map[string]uint64 `json:"run_digests"` // sampled runs -> digest (determinism self-check)
 	Truncated   bool              `json:"truncated"`
+	Scheds      []uint64          `json:"scheds,omitempty"` // multi world: hashes of executed schedules
 	WallS       float64           `json:"wall_s"`
 }
 
@@ -218,6 +219,9 @@ func cmdWorker(args []string) int {
 		}
 		if res.MaxCall > wo.MaxCall {
 			wo.MaxCall, wo.MaxCallBud = res.MaxCall, res.MaxCallBud
+		}
+		if res.SchedHash != 0 {
+			wo.Scheds = append(wo.Scheds, res.SchedHash)
 		}
 		d := res.Digest()
 		if run%sampleEvery == 0 {
@@ -455,6 +459,7 @@ func cmdRun(args []string) int {
 		Known: map[string]int{}, KnownSample: map[string]string{}, RunDigests: map[string]uint64{}}
 	states := map[string]bool{}
 	distinct := map[uint64]bool{}
+	scheds := map[uint64]bool{}
 	read := func(path string) *WorkerOut {
 		var wo WorkerOut
 		b, err := os.ReadFile(path)
@@ -495,6 +500,9 @@ func cmdRun(args []string) int {
 		}
 		for _, s := range wo.States {
 			states[s] = true
+		}
+		for _, h := range wo.Scheds {
+			scheds[h] = true
 		}
 		tot.Violations = append(tot.Violations, wo.Violations...)
 		if wo.MaxCall > tot.MaxCall {
@@ -593,6 +601,8 @@ func cmdRun(args []string) int {
 			"probes":                 tot.Probes,
 			"probes_unfired":         unfired,
 			"abstract_states":        len(states),
+			"distinct_schedules_executed": len(scheds),
+			"context_switches_inside_library_calls": tot.Probes["multi_switches"],
 			"abstract_state_measure": "distinct (component, target, fill class, cursor/unparsed class, last operation) tuples visited after an operation",
 			"max_ticks_per_call":     tot.MaxCall,
 			"tick_budget_of_that_call": tot.MaxCallBud,
